@@ -5,9 +5,10 @@
    Quantification as in C11.v: every configuration c (operating mode, home and
    netfilter prefixes, addresses) subject to [cfg_ok c] where stated (the netfilter
    gateway is the host's own address, as the property words it), every history h,
-   every step t of its trace, on the model of the REPAIRED code (FIXLOG.md). *)
+   every step t of its trace, on the model of the REPAIRED code (FIXLOG.md:
+   7baf630 c9f204c d6f86b5 handlers/dhcp4_spoofer, 94e2701 AppendOptions). *)
 From PV Require Import Base.Prelude Base.Text Model.DHCP Model.DHCPShow Spec.DHCP Spec.DHCPCheck
-  Proofs.DHCP Proofs.DHCPInv Proofs.DHCPReply Proofs.DHCPRefuted.
+  Proofs.DHCP Proofs.DHCPInv Proofs.DHCPReply Proofs.DHCPTie Proofs.DHCPRefuted.
 Open Scope list_scope.
 Open Scope N_scope.
 
@@ -21,21 +22,13 @@ Theorem C12_reply_subnet : forall c h t m r,
 Proof. exact subnet_all. Qed.
 Print Assumptions C12_reply_subnet.
 
-(* The subnet mask precedes the router option — FALSE in general (finding
-   c12-prl-router-before-mask, DESIGN #18, AppendOptions in layer_dhcp4.go, owned by
-   the ENCODE cluster): witness ... *)
-Theorem C12_mask_first_refuted : exists c h t r,
-  In t (trace c (init c) h) /\ t_reply t = Some r /\ r_type r = ROffer /\ c12_mask_first r = false.
-Proof. exact mask_first_refuted. Qed.
-Print Assumptions C12_mask_first_refuted.
-
-(* ... and true whenever the client's parameter request list does not name the
-   router (3) before the mask (1): exactly the complement of the recorded class. *)
-Theorem C12_mask_first_partial : forall c h t m r,
+(* The subnet mask precedes the router option in every OFFER and ACK, whatever the
+   client's parameter request list says (AppendOptions as repaired by 94e2701). *)
+Theorem C12_mask_first : forall c h t m r,
   In t (trace c (init c) h) -> op_msg (t_op t) = Some m -> t_reply t = Some r ->
-  known_c12_prl m = false -> c12_mask_first r = true.
-Proof. exact mask_first_partial. Qed.
-Print Assumptions C12_mask_first_partial.
+  c12_mask_first r = true.
+Proof. exact mask_first_all. Qed.
+Print Assumptions C12_mask_first.
 
 (* An ACK confirms the address offered in this transaction (same client id, same
    xid) or the client's current lease. *)
@@ -52,6 +45,13 @@ Theorem C12_no_ack_when : forall c h t m,
   c12_no_ack_when c (t_pre t) m (t_reply t) = true.
 Proof. exact no_ack_when_all. Qed.
 Print Assumptions C12_no_ack_when.
+
+(* The spec column of D12 (failed C12 demands per step on the model's trace) is empty
+   along every history: every alarm of the run is a model/implementation disagreement. *)
+Theorem C12_spec_column_never_fails : forall c h t,
+  cfg_ok c -> In t (trace c (init c) h) -> c12_fails c t = [].
+Proof. exact c12_fails_nil. Qed.
+Print Assumptions C12_spec_column_never_fails.
 
 (* Non-vacuity. *)
 Example C12_cfg_ok_example : cfg_ok wcfg.
